@@ -46,8 +46,8 @@ ACTIONS = [
 # sigmas (AbsFix) and take the wrong logarithm (LogFix); the invariants NonNegative / TransLaw then are probes
 # that must fail.  After the corresponding repair of tf_pwa/err_num.py set the flag to True: the spec's Rule
 # follows the repaired code and the probe becomes an ordinary invariant of the main run.
-SPEC_ABS_FIX = True
-SPEC_LOG_FIX = True
+SPEC_ABS_FIX = False
+SPEC_LOG_FIX = False
 MAIN_INVARIANTS = ["Magnitude", "ValueAgrees", "NegCharacterised", "CalNonNeg", "TransCharacterised", "BoundCongruence"]
 
 # tolerances (measured margins on the unchanged tree are recorded in the evidence)
@@ -441,13 +441,6 @@ class TFBackend(object):
         return self.tf.sin(a)
 
 
-def _spd(rng, n, scale=1.0):
-    a = rng.normal(size=(n, n))
-    m = a @ a.T + 0.3 * np.eye(n)
-    d = np.sqrt(np.diag(m))
-    return scale * m / d[:, None] / d[None, :] * rng.uniform(0.05, 0.6, size=n)[:, None] * 1.0
-
-
 def _cov(rng, n):
     """random covariance matrix with correlations"""
     a = rng.normal(size=(n, n))
@@ -466,8 +459,8 @@ def _params_trans_part(ctx, exact_rows, trans_rows, rng, mg, quick):
     pool = [(t, [float(_fr(x)) for x in g]) for fam, (t, _, _, _, _, g) in exact_rows if fam != "cal" and 1 <= len(g) <= nmax and t[0] != "U"]
     tpool = [t for t, _, _, _ in trans_rows if E.n_leaves(t) <= nmax and "sqrtfd" not in json.dumps(t)]
     rs = random.Random(ctx.seed + 9)
-    n_rat = 300 if quick else 4000
-    n_tr = 150 if quick else 2000
+    n_rat = 200 if quick else 4000
+    n_tr = 100 if quick else 2000
     sel = rs.sample(pool, min(n_rat, len(pool)))
     tsel = rs.sample(tpool, min(n_tr, len(tpool)))
     vm = VarsManager(dtype=tf.float64)
@@ -511,7 +504,7 @@ def _params_trans_part(ctx, exact_rows, trans_rows, rng, mg, quick):
         run_one(t, np.array(g), 1e-9, "transcendental_tree")
     # vector / list / dict / matrix forms on a few tuples of trees
     n_multi = 0
-    for j in range(4 if quick else 40):
+    for j in range(3 if quick else 40):
         ts = rs.sample(sel, 3)
         V = _cov(rng, nmax)
         vals = [rs.choice([-2.0, -1.5, 0.5, 3.0, 1.25]) for _ in names]
